@@ -2,7 +2,7 @@
    decode the harness tape, run the model, encode its observation, and the Spec-level helpers
    (expected messages of a stream, walking the API results against them). *)
 Require Import WS.Base.Bytes WS.Base.Tape WS.gen.Consts WS.Spec.Frame WS.Spec.Utf8 WS.Spec.Conformance.
-Require Import WS.Model.Bufio WS.Model.Reader.
+Require Import WS.Model.Bufio WS.Model.Reader WS.Model.Server.
 
 Record rcase := {
   k_cfg : rcfg;
@@ -42,13 +42,13 @@ Definition p_rcase : P rcase :=
   ch <- pList pBytes ;; fl <- p_errk ;; gl <- pBool ;;
   ops <- pList p_op ;; cmp <- pBool ;; dr <- pBool ;; sure <- pN ;; via <- pBool ;;
   let sock := {| chunks := ch; fault := fl; glued := gl |} in
-  (* via = the Conn was made by Upgrader.Upgrade from a hijacked bufio.Reader of size brs holding bf:
-     reuse it when ReadBufferSize = 0 and its size > 256, else read through brNetConn *)
-  let reuse := negb via || ((rbq =? 0) && (256 <? brs)) in
+  (* via = the Conn was made by Upgrader.Upgrade from a hijacked bufio.Reader of size brs holding bf
+     (Model/Server.v upgrade_reader); otherwise newConn's own rule (a supplied reader keeps its size) *)
+  let b := if via then upgrade_reader rbq brs bf sock else mk_bufio (eff_size rbq brs) bf sock in
   ret {| k_cfg := {| server := sv; negotiated := ng; custom_handlers := cu; handler_fail := hf; caps := cp |};
-         k_rbuf := if reuse then eff_size rbq brs else eff_size rbq 0;
-         k_buffered := if reuse then bf else [];
-         k_script := if reuse then sock else brnetconn_script bf sock;
+         k_rbuf := bsize b;
+         k_buffered := bbuf b;
+         k_script := src b;
          k_ops := ops; k_limit0 := 0; k_cmp := cmp; k_drains := dr; k_sure := sure |}.
 
 (* ---- observations ---- *)
